@@ -646,6 +646,23 @@ func genSequence(rnd *rand.Rand, idx int, cfg config) []op {
 			upgradeAt = -1
 			length++ // the restart is not an operation
 			seq = append(seq, op{Kind: kEnableWeb})
+			// the new did:web documents have no services: adding a service that only the did:nuts document holds is a transaction with a single change
+			var withServices []*subj
+			for _, s := range subs {
+				if !s.dead && len(s.services) > 0 {
+					withServices = append(withServices, s)
+				}
+			}
+			if len(withServices) > 0 && rnd.Intn(3) > 0 {
+				s := withServices[rnd.Intn(len(withServices))]
+				var types []string
+				for t := range s.services {
+					types = append(types, t)
+				}
+				sort.Strings(types)
+				t := types[rnd.Intn(len(types))]
+				seq = append(seq, op{Kind: kAddSame, Subject: s.name, Type: t, Endpoint: s.services[t]})
+			}
 			continue
 		}
 		var live, dead []*subj
@@ -1179,7 +1196,15 @@ func (p *pass) compare(o op, pl plan, phase, class string, tookEffect bool, pre,
 	}
 	for id, h := range post.Net {
 		if old, ok := pre.Net[id]; ok && old != h && !strings.Contains(strings.Join(post.Rows[o.Subject], " "), id) {
-			p.violation("C13/other-subject-changed", fmt.Sprintf("the network side of %s changed although the operation was on %s", id, o.Subject), o, phase, pre, post, nil)
+			var ledger []string
+			for _, rec := range p.e.net.ledger {
+				if rec.DID == id {
+					ledger = append(ledger, fmt.Sprintf("#%d delivered=%v payload=%s", rec.Seq, rec.Delivered, sum(rec.Payload)))
+				}
+			}
+			p.violation("C13/other-subject-changed", fmt.Sprintf("the network side of %s changed although the operation was on %s", id, o.Subject), o, phase, pre, post,
+				map[string]any{"network_document_before": old, "network_document_after": h, "published_for_that_did": ledger, "ledger_before": pre.Ledger, "ledger_after": post.Ledger,
+					"rows_of_all_subjects_before": pre.Rows, "rows_of_all_subjects_after": post.Rows})
 		}
 	}
 	b, a := pre.Subjects[o.Subject], post.Subjects[o.Subject]
@@ -1387,8 +1412,10 @@ func (p *pass) run() {
 			p.count("redelivered_after_restart", p.e.net.redeliver())
 			p.count("process_stops", 1)
 		} else if err != nil {
-			mid := p.e.snap(o.Subject)
-			cleanBefore = mid.ChangeLog == 0 && reflect.DeepEqual(mid.Subjects[o.Subject], pre.Subjects[o.Subject])
+			// statistics only (no verdict before the sweep): the subject and the change log, not the whole database
+			var pendingRecords int64
+			p.e.db.Raw("SELECT count(*) FROM did_change_log").Scan(&pendingRecords)
+			cleanBefore = pendingRecords == 0 && reflect.DeepEqual(p.e.snapSubject(o.Subject), pre.Subjects[o.Subject])
 			if cleanBefore {
 				p.count("failed_operations_already_clean_before_sweep", 1)
 			} else {
@@ -1714,7 +1741,7 @@ func TestCheck(t *testing.T) {
 	rec := &sched.Recorder{OnHook: hook}
 	defer rec.Install()()
 
-	nSeq := r.Pick(24, 240)
+	nSeq := r.Pick(24, 160)
 	rnd := r.Rand("sequences")
 	seqs := make([][]op, nSeq)
 	nOps := 0
